@@ -247,6 +247,8 @@ pub struct Env {
 	pub stop_handle: Option<StopHandle>,
 	pub cap: u32,
 	pub qcap: u32,
+	/// lowlevel mode: the tasks driving the connection futures `ws::connect` returned, by connection id
+	pub conn_futs: Arc<Mutex<Vec<(u32, tokio::task::JoinHandle<()>)>>>,
 }
 
 fn server_cfg(cap: u32, qcap: u32, ids: Arc<CounterIds>) -> ServerConfig {
@@ -265,7 +267,7 @@ impl Env {
 		let ids = Arc::new(CounterIds::default());
 		let module = build_module(shared.clone());
 		let methods: Methods = module.into();
-		let mut env = Env { shared, ids: ids.clone(), methods: methods.clone(), conns: vec![], server_handle: None, stop_handle: None, cap, qcap };
+		let mut env = Env { shared, ids: ids.clone(), methods: methods.clone(), conns: vec![], server_handle: None, stop_handle: None, cap, qcap, conn_futs: Arc::new(Mutex::new(vec![])) };
 		if eager {
 			let (stop_handle, server_handle) = stop_channel();
 			let builder: TowerServiceBuilder<_, _> =
@@ -279,14 +281,15 @@ impl Env {
 					let (m2, sh2) = (methods.clone(), stop_handle.clone());
 					let conn_id = env.conns.len() as u32;
 					let guard = jsonrpsee_server::ConnectionGuard::new(4);
+					let futs = env.conn_futs.clone();
 					let svc = tower::service_fn(move |req: jsonrpsee_server::HttpRequest<hyper::body::Incoming>| {
-						let (cfg, m2, sh2, guard) = (cfg.clone(), m2.clone(), sh2.clone(), guard.clone());
+						let (cfg, m2, sh2, guard, futs) = (cfg.clone(), m2.clone(), sh2.clone(), guard.clone(), futs.clone());
 						async move {
 							let permit = guard.try_acquire().expect("connection permit");
 							let conn = jsonrpsee_server::ConnectionState::new(sh2, conn_id, permit);
 							match jsonrpsee_server::ws::connect(req, cfg, m2, conn, RpcServiceBuilder::new()).await {
 								Ok((rp, conn_fut)) => {
-									tokio::spawn(conn_fut);
+									futs.lock().unwrap().push((conn_id, tokio::spawn(conn_fut)));
 									Ok::<_, std::convert::Infallible>(rp)
 								}
 								Err(rp) => Ok(rp),
@@ -446,6 +449,22 @@ impl Env {
 	}
 
 	/// the peer goes away (`graceful`: WebSocket close frame first; otherwise the socket just drops)
+	/// lowlevel mode: the application DROPS the connection future `ws::connect` returned (the documented
+	/// `select!{ conn_fut, disconnect.recv() }` pattern) — the peer's socket stays as it is.  `false` =
+	/// not a lowlevel connection.
+	pub fn drop_conn_future(&mut self, c: usize) -> bool {
+		let mut futs = self.conn_futs.lock().unwrap();
+		let mut found = false;
+		for (id, h) in futs.iter() {
+			if *id as usize == c {
+				h.abort();
+				found = true;
+			}
+		}
+		futs.retain(|(id, _)| *id as usize != c);
+		found
+	}
+
 	pub async fn conn_close(&mut self, c: usize, graceful: bool) {
 		match &mut self.conns[c] {
 			ConnImpl::Eager(p) => {
@@ -551,6 +570,59 @@ pub fn unsub_request(meth: usize, rid: u64, params: Option<&str>) -> String {
 
 /// The argument of an `ss unsub` line: a typed id token, or `j<hex>` = raw params text that is not
 /// `[<subscription id>]` (`j-` = params omitted).  Returns (params text, the typed id it names if any).
+/// JSON spelling of a string with escapes chosen by `style`: 0 = serde_json's (minimal), 1 = every
+/// char as \uXXXX (surrogate pairs for astral chars), 2 = short escapes where they exist (`\/` too),
+/// every other non-alphanumeric char as \uXXXX, 3 = alternating plain / \uXXXX
+pub fn spell_json_string(t: &str, style: u64) -> String {
+	if style == 0 {
+		return serde_json::to_string(t).unwrap();
+	}
+	let mut o = String::from("\"");
+	let u = |o: &mut String, c: char| {
+		let mut b = [0u16; 2];
+		for x in c.encode_utf16(&mut b) {
+			o.push_str(&format!("\\u{:04x}", x));
+		}
+	};
+	for (i, c) in t.chars().enumerate() {
+		let must = matches!(c, '"' | '\\') || (c as u32) < 0x20;
+		match style {
+			1 => u(&mut o, c),
+			2 => match c {
+				'"' => o.push_str("\\\""),
+				'\\' => o.push_str("\\\\"),
+				'/' => o.push_str("\\/"),
+				'\n' => o.push_str("\\n"),
+				'\t' => o.push_str("\\t"),
+				'\r' => o.push_str("\\r"),
+				'\u{8}' => o.push_str("\\b"),
+				'\u{c}' => o.push_str("\\f"),
+				c if c.is_ascii_alphanumeric() => o.push(c),
+				c => u(&mut o, c),
+			},
+			_ => {
+				if must || i % 2 == 0 {
+					u(&mut o, c)
+				} else {
+					o.push(c)
+				}
+			}
+		}
+	}
+	o.push('"');
+	o
+}
+
+pub fn unsub_arg_spelled(w: &str, rid: u64) -> Option<(Option<String>, Option<String>)> {
+	match parse_sid_token(w) {
+		Some(SubscriptionId::Str(t)) if !w.starts_with('j') => {
+			// the id VALUE is spelled through the escape speller, style by request id
+			Some((Some(format!("[{}]", spell_json_string(&t, (rid / UNSUB_SPELLINGS) % 4))), Some(sid_token(&SubscriptionId::Str(t)))))
+		}
+		_ => unsub_arg(w),
+	}
+}
+
 pub fn unsub_arg(w: &str) -> Option<(Option<String>, Option<String>)> {
 	if let Some(h) = w.strip_prefix('j') {
 		let t = String::from_utf8(crate::common::unhex(h)).ok()?;
@@ -1346,7 +1418,8 @@ impl CaseRun {
 				}
 			}
 			"unsub" => {
-				let (Some(c), Some(m), Some((params, named)), Some(rid)) = (num(2), num(3), w.get(4).and_then(|x| unsub_arg(x)), num(5)) else {
+				let (Some(c), Some(m), Some(rid)) = (num(2), num(3), num(5)) else { return bad("bad-op") };
+				let Some((params, named)) = w.get(4).and_then(|x| unsub_arg_spelled(x, rid)) else {
 					return bad("bad-op");
 				};
 				let (c, m) = (c as usize, m as usize);
@@ -1397,15 +1470,20 @@ impl CaseRun {
 			"connclose" => {
 				let Some(c) = num(2) else { return bad("bad-op") };
 				let c = c as usize;
-				let graceful = match w.get(3) {
-					Some(&"graceful") => true,
-					Some(&"abrupt") => false,
+				// graceful = peer sends a close frame; abrupt = peer's socket drops; dropfut = (lowlevel assembly)
+				// the application drops the connection future, the peer does nothing (elsewhere = abrupt)
+				let (graceful, dropfut) = match w.get(3) {
+					Some(&"graceful") => (true, false),
+					Some(&"abrupt") => (false, false),
+					Some(&"dropfut") => (false, true),
 					_ => return bad("bad-op"),
 				};
 				if c >= self.nconns {
 					"bad".into()
 				} else {
-					self.env.conn_close(c, graceful).await;
+					if !(dropfut && self.env.drop_conn_future(c)) {
+						self.env.conn_close(c, graceful).await;
+					}
 					self.book.peer_closed[c] = true;
 					barrier().await;
 					"done".into()
@@ -1601,7 +1679,7 @@ fn fresh_sid(rng: &mut Rng, pf: &Profile, g: &mut Gen) -> String {
 	if pf.typed_ids == 0 || !rng.chance(pf.typed_ids, 10) {
 		return n.to_string();
 	}
-	match rng.below(12) {
+	match rng.below(15) {
 		0..=4 => str_token(&n.to_string()),
 		5 => str_token(&format!("00{n}")),
 		6 => str_token(&format!("a{n}")),
@@ -1616,7 +1694,18 @@ fn fresh_sid(rng: &mut Rng, pf: &Profile, g: &mut Gen) -> String {
 				str_token(c)
 			}
 		}
-		9 => str_token(&format!("{n} ")),
+		9 | 12 | 13 | 14 => str_token(&match rng.below(8) {
+			// ids whose JSON spelling REQUIRES or invites escapes: quote, backslash, slash, control
+			// chars, non-ASCII, astral
+			0 => format!("a\"b{n}"),
+			1 => format!("a\\b{n}"),
+			2 => format!("sub/{n}"),
+			3 => format!("l\n{n}\t"),
+			4 => format!("\u{1}{n}"),
+			5 => format!("é{n}ß"),
+			6 => format!("\u{1F600}{n}"),
+			_ => format!("{n} "),
+		}),
 		10 => str_token(&format!("+{n}")),
 		_ => str_token(&format!("-{n}")),
 	}
@@ -1695,7 +1784,7 @@ pub fn gen_line(rng: &mut Rng, run: &CaseRun, g: &mut Gen, pf: &Profile) -> Stri
 	// faults
 	for c in 0..run.nconns {
 		if !book.peer_closed[c] {
-			opts.push((1, format!("ss connclose {c} {}", if rng.chance(1, 2) { "graceful" } else { "abrupt" })));
+			opts.push((1, format!("ss connclose {c} {}", *rng.pick(&["graceful", "abrupt", "dropfut"]))));
 		}
 	}
 	if run.eager && !book.stopped && rng.chance(1, 3) {
@@ -1800,6 +1889,7 @@ fn count_axes(out: &mut Out, line: &str, res: &str) {
 			let kind = match parse_sid_token(w[5]) {
 				Some(SubscriptionId::Num(_)) => "num",
 				Some(SubscriptionId::Str(s)) if s.parse::<u64>().is_ok() => "digit-string",
+				Some(SubscriptionId::Str(s)) if s.chars().any(|c| matches!(c, '"' | '\\' | '/') || (c as u32) < 0x20 || !c.is_ascii()) => "string-with-escapable-chars",
 				Some(SubscriptionId::Str(_)) => "other-string",
 				None => "?",
 			};
@@ -1808,6 +1898,11 @@ fn count_axes(out: &mut Out, line: &str, res: &str) {
 		"unsub" if w.len() == 6 => {
 			out.count(&format!("axis.unsub-spelling.{}", w[5].parse::<u64>().unwrap_or(0) % UNSUB_SPELLINGS));
 			out.count(&format!("axis.unsub-arg.{}", if w[4].starts_with('j') { "not-an-id" } else if w[4].starts_with('s') { "string" } else { "number" }));
+			if let Some(SubscriptionId::Str(t)) = parse_sid_token(w[4]).filter(|_| w[4].starts_with('s')) {
+				let style = (w[5].parse::<u64>().unwrap_or(0) / UNSUB_SPELLINGS) % 4;
+				let needs = t.chars().any(|c| matches!(c, '"' | '\\') || (c as u32) < 0x20);
+				out.count(&format!("axis.unsub-id-escape-style.{style}{}", if needs { ".id-requires-escapes" } else if !t.is_ascii() { ".non-ascii" } else { "" }));
+			}
 		}
 		"send" | "acceptsend" | "burst" | "parksend" => {
 			if let Some(h) = w.last() {
